@@ -316,14 +316,32 @@ func TestC14_MisplacedObjects(t *testing.T) {
 
 func TestC14_MultiFault(t *testing.T) {
 	c := harness.New(t, "C14", "multi-fault",
-		fmt.Sprintf("string-API templates with several simultaneous faults in one order-sensitive construct: object literals with 2..6 failing entries (different failure kinds, so the messages differ; evaluated expressions, operators on literals of the wrong type, or both; the other entries constants), arrays of such objects, data maps with several entries of unsupported kinds (different Go types) or several reserved/mismatching entries; each rendered %d times: same error (message and line) every time. Non-trivial: all (>= 2 distinct faults). Distinct by hash.", c14Reps))
+		fmt.Sprintf("string-API templates with several simultaneous faults in one order-sensitive construct: object literals with 2..6 failing entries (different failure kinds, so the messages differ; evaluated expressions, operators on literals of the wrong type, or both; the other entries constants), arrays of such objects, data maps with several entries of unsupported kinds (different Go types) at top level or inside one nested map, or several reserved/mismatching entries; each rendered %d times: same error (message and line) every time. Non-trivial: all (>= 2 distinct faults). Distinct by hash.", c14Reps))
 	defer c.Finish()
 	faults := []string{"zz1", "zz2", "1 / 0", "1 + 'a'", "nope.x", "5 % 0", "'s'.nosuchfn()", "[1][0].zz", "zz3 + 1"}
 	// failing entries that are made of literals only (an operator on a literal of the wrong type)
 	constFaults := []string{"-'x'", "!1", "-true", "-nil", "!'y'", "!2.5", "-[1]", "-{a: 1}"}
 	runRapid(t, c, 700, 9000, func(rt *rapid.T) {
 		cs := detCase{Kind: "multi-fault"}
-		switch rapid.IntRange(0, 3).Draw(rt, "where") {
+		switch rapid.IntRange(0, 4).Draw(rt, "where") {
+		case 4:
+			// several values of unsupported kinds (different Go types) inside one map or struct of the data, one or two levels down
+			cs.Src = "{{ 1 }}"
+			kinds := rapid.SliceOfNDistinct(rapid.SampledFrom([]string{spec.TChan, spec.TFunc, spec.TComplex, spec.TArray, spec.TIntMap, spec.TBoolMap}), 2, 5, rapid.ID[string]).Draw(rt, "unsupKinds")
+			vals := make([]*spec.Value, len(kinds))
+			for i, k := range kinds {
+				vals[i] = spec.Any(spec.Unsupported(k))
+			}
+			inner := spec.Map(spec.T(spec.TAny), append([]string{}, manyKeys[:len(kinds)]...), vals)
+			switch rapid.IntRange(0, 2).Draw(rt, "nestedHow") {
+			case 0:
+				cs.Data = (&spec.Data{}).Add("cfg", inner)
+			case 1:
+				cs.Data = (&spec.Data{}).Add("cfg", spec.Map(spec.T(spec.TAny), []string{"fine", "deep"}, []*spec.Value{spec.Any(spec.IntOf(spec.TInt, 1)), spec.Any(inner)}))
+			default:
+				cs.Data = (&spec.Data{}).Add("list", spec.Slice(spec.T(spec.TAny), spec.Any(spec.String("ok")), spec.Any(inner)))
+			}
+			cs.Data.Add("fine", spec.IntOf(spec.TInt, 1))
 		case 0, 1:
 			n := rapid.IntRange(2, 6).Draw(rt, "nFaults")
 			pool, okEntry := faults, "ok: 1"
